@@ -497,11 +497,15 @@ class GridFlow(WidgetWrap[Pile], WidgetContainerMixin, WidgetContainerListConten
     def get_cursor_coords(self, size: tuple[int] | tuple[()]) -> tuple[int, int]:
         """Get cursor from display widget."""
         self.get_display_widget(size)
+        if not hasattr(self._w, "get_cursor_coords"):
+            return None  # no cells: the display widget is a plain Divider
         return super().get_cursor_coords(size)
 
     def move_cursor_to_coords(self, size: tuple[int] | tuple[()], col: int, row: int):
         """Set the widget in focus based on the col + row."""
         self.get_display_widget(size)
+        if not hasattr(self._w, "move_cursor_to_coords"):
+            return False  # no cells: the display widget is a plain Divider
         rval = super().move_cursor_to_coords(size, col, row)
         self._set_focus_from_display_widget()
         return rval
@@ -523,4 +527,6 @@ class GridFlow(WidgetWrap[Pile], WidgetContainerMixin, WidgetContainerListConten
     def get_pref_col(self, size: tuple[int] | tuple[()]):
         """Return pref col from display widget."""
         self.get_display_widget(size)
+        if not hasattr(self._w, "get_pref_col"):
+            return None  # no cells: the display widget is a plain Divider
         return super().get_pref_col(size)
